@@ -172,6 +172,68 @@ def specs(form, shard=None, nshards=1, kinds=None):
     return harness
 
 
+CALLABLES = [("make_base", "Base"), ("make_sub1", "Sub1"), ("make_object", "object"), ("make_other", "Other")]
+DECLARED = ["Base", "Sub1", "Sub2", "Other"]
+
+
+def callables():
+    """'... or a callable returning one': a class_path naming a function is accepted exactly when its annotated return type
+    is the declared class or a subclass of it, whatever the relation is (same / strict subclass / strict superclass / unrelated);
+    an accepted one builds an instance of the declared class."""
+    from jsonargparse import ArgumentError, ArgumentParser
+
+    from .. import fixtures
+
+    install_format_stubs()
+    parsers = {}
+    for d in DECLARED:
+        parsers[d] = ArgumentParser(exit_on_error=False)
+        parsers[d].add_argument("--x", type=getattr(fixtures, d), default=None)
+
+    def harness():
+        d = S.pick("declared", DECLARED)
+        fname, rname = S.pick("callable", CALLABLES)
+        via = S.pick("via", ["object", "argv"])
+        given = S.flag("arg.given")
+        w = S.int("w") if via == "object" else S.pick("w", [3, 8])
+        arg = "q" if fname == "make_other" else "w"
+        declared = getattr(fixtures, d)
+        ret = object if rname == "object" else getattr(fixtures, rname)
+        exp_accept = issubclass(ret, declared)
+        p = parsers[d]
+        try:
+            if via == "object":
+                spec = {"class_path": f"vf.fixtures.{fname}"}
+                if given:
+                    spec["init_args"] = {arg: w}
+                cfg = p.parse_object({"x": spec})
+            else:
+                argv = [f"--x=vf.fixtures.{fname}"] + ([f"--x.{arg}={w}"] if given else [])
+                if S.replaying is not None:
+                    cfg = p.parse_args(argv)
+                else:
+                    from crosshair.tracers import NoTracing
+
+                    with NoTracing():
+                        cfg = p.parse_args(argv)
+        except ArgumentError:
+            S.note("rejected")
+            if exp_accept:
+                return Fail("callable:valid-spec-rejected", declared=d, callable=fname, via=via)
+            return True
+        S.note("accepted")
+        if not exp_accept:
+            return Fail("callable:invalid-spec-accepted", declared=d, callable=fname, via=via)
+        obj = p.instantiate_classes(cfg).x
+        if not isinstance(obj, declared):
+            return Fail("callable:built-object-is-not-of-the-declared-class", declared=d, callable=fname, got=type(obj).__name__)
+        if given and getattr(obj, arg, None) != w:
+            return Fail("callable:given-init-arg-not-passed", declared=d, callable=fname)
+        return True
+
+    return harness
+
+
 def _veq(a, b):
     if type(a) is not type(b) and not (isinstance(a, int) and isinstance(b, int) and not isinstance(a, bool) and not isinstance(b, bool)):
         return False
@@ -404,6 +466,7 @@ def main(rep, tier):
                 kw.update(shard=sh, nshards=n)
             jobs.append(dict(module="c14", func="specs", kwargs=kw, timeout=600))
     jobs.append(dict(module="c14", func="short_forms", kwargs={}, timeout=600))
+    jobs.append(dict(module="c14", func="callables", kwargs={}, timeout=600))
     for names in ((["net", "net_ema"], ["net_ema", "net"]) if tier == "quick" else (["net", "net_ema"], ["net_ema", "net"], ["m", "m2"])):
         for via in ("cfg_base", "two-cfg"):
             for c1a in range(4):
